@@ -985,4 +985,222 @@ theorem C13_unrelated_delivers_nothing (n : Node) (i : SvcInst) :
     · rfl
   all_goals (intros; simp [Node.svcEvs, Node.fanSvc, Node.fan, Node.ticks])
 
+/-! ## 5. `apply_timestep` never meets a `None` countdown -/
+
+theorem uninstall_heap (n n' : Node) (name : String) (hu : n.uninstall name = some n') :
+    n'.svcs = n.svcs ∧ n'.apps = n.apps ∧ n'.next = n.next ∧ n'.power = n.power := by
+  unfold Node.uninstall at hu
+  split at hu
+  · cases hu; exact ⟨rfl, rfl, rfl, rfl⟩
+  · split at hu
+    · split at hu
+      · cases hu; exact ⟨rfl, rfl, rfl, rfl⟩
+      · cases hu
+    · split at hu
+      · split at hu
+        · cases hu; exact ⟨rfl, rfl, rfl, rfl⟩
+        · cases hu
+      · cases hu; exact ⟨rfl, rfl, rfl, rfl⟩
+
+theorem soft_tick_ok (w : Soft) (h : w.tickOk = true) : w.tick.tickOk = true := by
+  rcases w with ⟨actual, visible, fixCd, fixDur, fixCount⟩
+  cases actual <;> cases fixCd <;> simp_all [Soft.tick, Soft.tickOk]
+  rename_i c
+  by_cases hc : c - 1 ≤ 0 <;> simp [hc]
+
+/-- every service method keeps "`apply_timestep` would not raise" -/
+theorem svc_tickOk_preserved (s : Svc) (e : SvcEv) (h : s.tickOk = true) : (s.apply e).1.tickOk = true := by
+  rcases s with ⟨st, cd, dur, ⟨actual, visible, fixCd, fixDur, fixCount⟩⟩
+  cases e with
+  | start on => cases on <;> cases st <;> cases cd <;> cases actual <;> cases fixCd <;>
+      simp_all [Svc.apply, Svc.start, Svc.tickOk, Soft.tickOk, Soft.goodIfUnused]
+  | tick =>
+    have hw : (Soft.tick ⟨actual, visible, fixCd, fixDur, fixCount⟩).tickOk = true :=
+      soft_tick_ok _ (by simp only [Svc.tickOk, Bool.and_eq_true] at h; exact h.1)
+    cases st <;> cases cd <;> simp_all [Svc.apply, Svc.tick, Svc.tickOk]
+  | _ => cases st <;> cases cd <;> cases actual <;> cases fixCd <;>
+      simp_all [Svc.apply, Svc.stop, Svc.pause, Svc.resume, Svc.restart, Svc.disable, Svc.enable, Svc.tickOk,
+        Soft.tickOk, Soft.scan, Soft.fix, Soft.compromise]
+
+theorem app_tickOk_preserved (a : App) (e : AppEv) (h : a.tickOk = true) : (a.apply e).1.tickOk = true := by
+  rcases a with ⟨st, cd, dur, ⟨actual, visible, fixCd, fixDur, fixCount⟩⟩
+  cases e with
+  | run on => cases on <;> cases st <;> cases cd <;> cases actual <;> cases fixCd <;>
+      simp_all [App.apply, App.run, App.tickOk, Soft.tickOk, Soft.goodIfUnused]
+  | tick =>
+    have hw : (Soft.tick ⟨actual, visible, fixCd, fixDur, fixCount⟩).tickOk = true :=
+      soft_tick_ok _ (by simp only [App.tickOk, Bool.and_eq_true] at h; exact h.1)
+    cases st <;> cases cd <;> simp_all [App.apply, App.tick, App.tickOk]
+    rename_i c
+    by_cases hc : c - 1 ≤ 0
+    · simp [hc, Soft.tickOk]
+    · simp [hc, hw]
+  | _ => cases st <;> cases cd <;> cases actual <;> cases fixCd <;>
+      simp_all [App.apply, App.close, App.install, App.tickOk, Soft.tickOk, Soft.scan, Soft.fix, Soft.compromise]
+
+theorem svc_tickOk_applyAll (evs : List SvcEv) (s : Svc) (h : s.tickOk = true) : (s.applyAll evs).tickOk = true := by
+  induction evs generalizing s with
+  | nil => exact h
+  | cons e es ih => exact ih _ (svc_tickOk_preserved s e h)
+
+theorem app_tickOk_applyAll (evs : List AppEv) (a : App) (h : a.tickOk = true) : (a.applyAll evs).tickOk = true := by
+  induction evs generalizing a with
+  | nil => exact h
+  | cons e es ih => exact ih _ (app_tickOk_preserved a e h)
+
+/-- every object on the node could be ticked without `TypeError` -/
+def WellTimed (n : Node) : Prop := (∀ i ∈ n.svcs, i.s.tickOk = true) ∧ (∀ i ∈ n.apps, i.a.tickOk = true)
+
+/-- installs that do not configure `starting_health_state: FIXING` (a FIXING object without countdown) -/
+def Op.healthOk : Op → Prop
+  | .installSvc _ _ h _ => h ≠ .fixing
+  | .installApp _ _ h _ => h ≠ .fixing
+  | _ => True
+
+theorem wellTimed_deliver (n : Node) (op : Op) (h : WellTimed n) : WellTimed (n.deliverEvs op) := by
+  constructor
+  · intro i hi
+    simp only [Node.deliverEvs, List.mem_map] at hi
+    obtain ⟨j, hj, rfl⟩ := hi
+    exact svc_tickOk_applyAll _ _ (h.1 j hj)
+  · intro i hi
+    simp only [Node.deliverEvs, List.mem_map] at hi
+    obtain ⟨j, hj, rfl⟩ := hi
+    exact app_tickOk_applyAll _ _ (h.2 j hj)
+
+theorem wellTimed_of_heap_eq (n n' : Node) (h : WellTimed n) (h1 : n'.svcs = n.svcs) (h2 : n'.apps = n.apps) : WellTimed n' := by
+  unfold WellTimed; rw [h1, h2]; exact h
+
+theorem wellTimed_installSvc (n : Node) (c l hl f) (h : WellTimed n) (hh : hl ≠ .fixing) : WellTimed (n.installSvc c l hl f) := by
+  refine ⟨?_, h.2⟩
+  intro i hi
+  simp only [Node.installSvc, List.mem_append, List.mem_singleton] at hi
+  rcases hi with hi | rfl
+  · exact h.1 i hi
+  · cases hl <;> cases n.isOn <;> simp_all [Svc.start, Svc.tickOk, Soft.tickOk, Soft.goodIfUnused]
+
+theorem wellTimed_installApp (n : Node) (c l hl f) (h : WellTimed n) (hh : hl ≠ .fixing) : WellTimed (n.installApp c l hl f) := by
+  refine ⟨h.1, ?_⟩
+  intro i hi
+  simp only [Node.installApp, List.mem_append, List.mem_singleton] at hi
+  rcases hi with hi | rfl
+  · exact h.2 i hi
+  · apply app_tickOk_applyAll
+    cases hl <;> cases n.isOn <;> cases c.ctorRuns <;>
+      simp_all [App.run, App.tickOk, Soft.tickOk, Soft.goodIfUnused]
+
+/-- **Invariant:** no operation produces an object whose `apply_timestep` would raise. -/
+theorem C13_wellTimed_preserved (n : Node) (op : Op) (h : WellTimed n) (ho : Op.healthOk op) : WellTimed (n.step op).1 := by
+  cases op with
+  | installSvc c l hl f => exact wellTimed_installSvc n c l hl f h ho
+  | installApp c l hl f => exact wellTimed_installApp n c l hl f h ho
+  | uninstall name =>
+    simp only [Node.step]
+    cases hu : n.uninstall name with
+    | none => exact h
+    | some n' => obtain ⟨h1, h2, _⟩ := uninstall_heap n n' name hu; exact wellTimed_of_heap_eq n n' h h1 h2
+  | reqUninstall name =>
+    simp only [Node.step]
+    split
+    · exact h
+    · split
+      · exact h
+      · cases hu : n.uninstall name with
+        | none => exact h
+        | some n' => obtain ⟨h1, h2, _⟩ := uninstall_heap n n' name hu; exact wellTimed_of_heap_eq n n' h h1 h2
+  | reqInstall name c =>
+    simp only [Node.step]
+    split
+    · exact h
+    · split
+      · exact h
+      · cases c with
+        | none => exact h
+        | some cl =>
+          have h1 := wellTimed_installApp n cl.1 cl.2 .good 2 h (by simp)
+          refine ⟨h1.1, ?_⟩
+          intro i hi
+          simp only [List.mem_map] at hi
+          obtain ⟨j, hj, rfl⟩ := hi
+          have := h1.2 j hj
+          split
+          · exact app_tickOk_preserved j.a .install this
+          · exact this
+  | svcReq name r => exact wellTimed_deliver n _ h
+  | appReq name r => exact wellTimed_deliver n _ h
+  | svcApi u e =>
+    simp only [Node.step]
+    split
+    · split
+      · exact h
+      · exact wellTimed_deliver n _ h
+    · exact h
+  | appApi u e =>
+    simp only [Node.step]
+    split
+    · split
+      · exact h
+      · exact wellTimed_deliver n _ h
+    · exact h
+  | tick =>
+    simp only [Node.step]
+    split
+    · exact h
+    · exact wellTimed_of_heap_eq (n.deliverEvs .tick) _ (wellTimed_deliver n _ h) rfl rfl
+  | powerOn =>
+    simp only [Node.step]
+    split
+    · exact wellTimed_of_heap_eq (n.deliverEvs .powerOn) _ (wellTimed_deliver n _ h) rfl rfl
+    · split <;> exact wellTimed_of_heap_eq n _ h rfl rfl
+  | powerOff =>
+    simp only [Node.step]
+    split
+    · exact wellTimed_of_heap_eq (n.deliverEvs .powerOff) _ (wellTimed_deliver n _ h) rfl rfl
+    · split <;> exact wellTimed_of_heap_eq n _ h rfl rfl
+  | reqStartup =>
+    simp only [Node.step]
+    split
+    · exact h
+    · split
+      · exact wellTimed_of_heap_eq (n.deliverEvs .reqStartup) _ (wellTimed_deliver n _ h) rfl rfl
+      · exact wellTimed_of_heap_eq n _ h rfl rfl
+  | reqShutdown =>
+    simp only [Node.step]
+    split
+    · exact h
+    · split
+      · exact wellTimed_of_heap_eq (n.deliverEvs .reqShutdown) _ (wellTimed_deliver n _ h) rfl rfl
+      · exact wellTimed_of_heap_eq n _ h rfl rfl
+  | deliver p pr sc => exact h
+  | frame hd sc => simp only [Node.step]; split <;> exact h
+
+/-- on a well-timed node the tick does not raise -/
+theorem wellTimed_tickAllOk (n : Node) (h : WellTimed n) : n.tickAllOk = true := by
+  unfold Node.tickAllOk
+  simp only [Bool.or_eq_true, Bool.and_eq_true, List.all_eq_true]
+  right
+  exact ⟨fun i hi => Or.inr (svc_tickOk_applyAll _ _ (h.1 i hi)), fun i hi => Or.inr (app_tickOk_applyAll _ _ (h.2 i hi))⟩
+
+theorem wellTimed_run (ops : List Op) (n : Node) (h : WellTimed n) (ho : ∀ op ∈ ops, Op.healthOk op) : WellTimed (n.run ops) := by
+  induction ops generalizing n with
+  | nil => exact h
+  | cons op ops ih =>
+    exact ih _ (C13_wellTimed_preserved n op h (ho op (by simp))) (fun o hm => ho o (by simp [hm]))
+
+/-- **`Node.apply_timestep` never raises `TypeError`** after any sequence of operations from the empty node (every
+install, uninstall, request, API call, power event, earlier tick …), as long as no software is configured with
+`starting_health_state: FIXING`. -/
+theorem C13_tick_never_raises (ops : List Op) (n0 : Node) (h0 : n0.svcs = [] ∧ n0.apps = [])
+    (ho : ∀ op ∈ ops, Op.healthOk op) :
+    ((n0.run ops).step .tick).2 = .done := by
+  have hw : WellTimed n0 := by
+    unfold WellTimed; rw [h0.1, h0.2]; simp
+  have := wellTimed_tickAllOk _ (wellTimed_run ops n0 hw ho)
+  simp [Node.step, this]
+
+/-- the hypothesis is needed: an object configured FIXING has no countdown and the first tick raises -/
+theorem C13_tick_raises_on_configured_fixing :
+    ((({} : Node).installSvc { name := "x", port := 1, proto := 1, guarded := true } [] .fixing 2).step .tick).2 = .raised := by
+  decide
+
 end Primaite.C13
